@@ -236,9 +236,10 @@ func extractLifecycle(repo string, fx *Facts) {
 			"sched.run++",
 			"sched.wg.Add(1)",
 			"go func{defer sched.wg.Done(); <-ctx.Done(); sched.stopRun(run)}(sched.run)",
+			"dispatch := make(chan ScheduledJob)",
 			"sched.wg.Add(1)",
-			"go sched.startExecutionLoop(ctx)",
-			"sched.startWorkers(ctx)",
+			"go sched.startExecutionLoop(ctx, dispatch)",
+			"sched.startWorkers(ctx, dispatch)",
 			"sched.started = true",
 		}
 		lf.StartShape = lcEq(lf.StartStmts, want)
